@@ -611,7 +611,12 @@ func (fr *Frame) binop(st *State, i *ssa.BinOp) Value {
 		case token.OR:
 			r = F.bitop(OBor, ii.w, ux, uy)
 		case token.XOR:
-			r = F.bitop(OBxor, ii.w, ux, uy)
+			if uy.IsConst() && uy.K.Cmp(big.NewInt(1)) == 0 {
+				// x ^ 1 flips the lowest bit: x + 1 - 2*(x mod 2) (exact on the unsigned image, linear for the solvers)
+				r = F.Sub(F.Add(ux, F.I64(1)), F.Mul(F.I64(2), F.Mod(ux, F.I64(2))))
+			} else {
+				r = F.bitop(OBxor, ii.w, ux, uy)
+			}
 		case token.AND_NOT:
 			r = F.bitop(OBand, ii.w, ux, F.Sub(F.Int(ii2max(ii.w)), uy))
 		}
